@@ -470,7 +470,7 @@ func (*compiler).exitScope [C05]
 // C18/C05: after a call of an extern function the caller releases each of its by-value arguments exactly once:
 // one free call per parameter that is not a Referenz and whose type is not primitive (the callee frees nothing)
 spec nonPrimT(t ddptypes.Type) bool := isListT(t) || tcls(t) == 6 || tcls(t) == 7 || isStructT(t)
-func (*compiler).VisitFuncCall [C18, C05]
+func (*compiler).VisitFuncCall [C18]
   requires c != nil && c.cbb != nil && e != nil && e.Func != nil
   // ASSUMED AST link (as for VisitFuncDecl)
   requires e.Func.GenericInstantiation != nil ==> e.Func.GenericInstantiation.GenericDecl != nil
